@@ -280,6 +280,38 @@ pub mod wzf {
     crate::paths_impl!(ZfM, ArchZf, ArchZfComponents, |v, x| [(zf, Zf, Zf), (pz, Pz, Pz(v)), (padz, Padz, Padz(v ^ 0x5a, x))]);
 }
 
+/// WAL: a component whose ALIGNMENT exceeds what the allocator guarantees by default (32 > 16):
+/// allocation, growth and deallocation paths that treat over-aligned types specially.
+pub mod wal {
+    use gecs::prelude::*;
+
+    #[derive(Clone, Copy, PartialEq, Debug)]
+    pub struct Pa(pub u8);
+    #[derive(Clone, Copy, PartialEq, Debug)]
+    #[repr(align(32))]
+    pub struct Al(pub u8, pub u32);
+
+    ecs_world! {
+        ecs_name!(WAL);
+        #[archetype_id(13)]
+        ecs_archetype!(ArchAl, Pa, Al);
+    }
+
+    crate::model_arch!(
+        AlM, WAL, |cap| WAL::with_capacity(WALCapacity { arch_al: cap }),
+        ArchAl, arch_al, 13, 2, u32::MAX,
+        mk = |v, x| ArchAlComponents { pa: Pa(v), al: Al(v ^ 0x33, x) },
+        un = |c| (c.pa.0, c.al.1, c.al.0 == c.pa.0 ^ 0x33),
+        get = |a, i| {
+            let p = a.get_slice::<Pa>()[i].0;
+            let al = a.get_slice::<Al>()[i];
+            (p, al.1, al.0 == p ^ 0x33)
+        },
+        first = Pa, 1, |c| c.0
+    );
+    crate::paths_impl!(AlM, ArchAl, ArchAlComponents, |v, x| [(pa, Pa, Pa(v)), (al, Al, Al(v ^ 0x33, x))]);
+}
+
 /// WMX: archetypes that MIX a column with drop glue (the C04 token) and plain-data columns,
 /// in both orders, in one world whose explicit ids DESCEND in declaration order.
 pub mod wmx {
